@@ -1,6 +1,11 @@
 /* Family "once" (C07).  Operations: O (nsync_run_once), Oa (nsync_run_once_arg),
    Os (nsync_run_once_spin), Oas (nsync_run_once_arg_spin); a trailing '2' uses a second
    nsync_once object 256 bytes away, which maps to the same internal once_sync slot.
+   On: nsync_run_once on the first object with a function that itself calls nsync_run_once on the
+   second one (nested lazy initialisation through the shared slot); Ow: nsync_run_once on the first
+   object with a function that waits until some call on the second object has returned (an initialiser
+   that depends on another thread's progress; legal only if another thread starts with a call on the
+   second object).
    The once-function contains two scheduling points and plain writes.
    Oracles: immediately after every call returns, the function has run exactly once and has
    completed; a call made after some call on that object already returned does not block. */
@@ -15,6 +20,13 @@ static int once_setup (const char *program) {
 	if (n < 1) return -1;
 	for (t = 0; t < n; t++) for (k = 0; k < h_nops[t]; k++) {
 		const char *o = h_op[t][k]; size_t l = strlen (o);
+		if (!strcmp (o, "On")) continue;
+		if (!strcmp (o, "Ow")) {
+			int u, ok = 0;
+			for (u = 0; u < n && !ok; u++) if (u != t && h_nops[u] > 0) { const char *f = h_op[u][0]; ok = (f[strlen (f) - 1] == '2'); }
+			if (!ok) return -1;
+			continue;
+		}
 		if (l > 0 && o[l-1] == '2') l--;
 		if (!((l == 1 && !strncmp (o, "O", 1)) || (l == 2 && (!strncmp (o, "Oa", 2) || !strncmp (o, "Os", 2))) || (l == 3 && !strncmp (o, "Oas", 3)))) return -1;
 	}
@@ -33,6 +45,13 @@ static void body (int i) {
 static void f0 (void) { body (0); }
 static void f1 (void) { body (1); }
 static void fa (void *a) { body ((int) (intptr_t) a); }
+static volatile int second_returned;
+MC_ORACLE static void inner_returned (void) {
+	if (runs[1] != 1 || !completed[1]) mc_fail ("a nested nsync_run_once call returned with the function having run %d times (completed=%d)", runs[1], completed[1]);
+	some_call_returned[1] = 1;
+}
+static void fnest (void) { mc_point (); nsync_run_once (&onces[64], &f1); inner_returned (); mc_flag_set (&second_returned, 1); body (0); }
+static void fwait (void) { mc_point (); mc_await (&second_returned); body (0); }
 MC_ORACLE static int armed (int i) { return some_call_returned[i]; }
 MC_ORACLE static void after_call (int i, int was_armed, unsigned blocks) {
 	if (runs[i] != 1) mc_fail ("an nsync_run_once* call returned with the function having run %d times", runs[i]);
@@ -50,7 +69,9 @@ static void once_thread (int me) {
 		if (i) l--;
 		a = armed (i);
 		mc_blocks_reset ();
-		if (l == 1) nsync_run_once (p, i ? &f1 : &f0);
+		if (!strcmp (o, "On")) nsync_run_once (p, &fnest);
+		else if (!strcmp (o, "Ow")) nsync_run_once (p, &fwait);
+		else if (l == 1) nsync_run_once (p, i ? &f1 : &f0);
 		else if (l == 2 && o[1] == 'a') nsync_run_once_arg (p, &fa, (void *) (intptr_t) i);
 		else if (l == 2) nsync_run_once_spin (p, i ? &f1 : &f0);
 		else nsync_run_once_arg_spin (p, &fa, (void *) (intptr_t) i);
@@ -58,6 +79,7 @@ static void once_thread (int me) {
 		/* the data written by the function must be visible here: plain reads (race monitor) */
 		mc_assert (runs[i] == 1 && completed[i] == 1, "once-function effects not visible after return (runs=%d completed=%d)", runs[i], completed[i]);
 		after_call (i, a, b);
+		if (i) mc_flag_set (&second_returned, 1);
 	}
 }
 MC_ORACLE static void once_final (void) { mc_outcome ("runs=%d,%d", runs[0], runs[1]); }
